@@ -132,7 +132,10 @@ def run_shard(desc, tier):
         ]
         good = [([MP.part("名前", None, "値é".encode()), MP.part("u", "ファイル.txt", "é".encode(), "text/plain")], b"bd", "utf-8"),
                 ([MP.part("é", None, "Zoë".encode("latin-1"))], b"bd", "latin-1"),
-                ([MP.part("g", "文.bin", b"\xff\x00"), MP.part("名", None, "中文".encode("gbk"))], b"bd", "gbk")]
+                ([MP.part("g", "文.bin", b"\xff\x00"), MP.part("名", None, "中文".encode("gbk"))], b"bd", "gbk"),
+                # boundaries that differ from an earlier request's in letter case only (boundaries are case-sensitive)
+                ([MP.part("f", None, b"upper"), MP.part("u", "x.bin", b"--bd\r\n")], b"BD", "utf-8"),
+                ([MP.part("f", None, b"mixed")], b"Bd", "utf-8"), ([MP.part("f", None, b"mixed again")], b"bD", "UTF-8")]
         for rounds in range(2):
             for body, boundary, charset in bad:
                 try:
